@@ -1,10 +1,11 @@
-\* exhaustive (quick): three nodes, log of up to 2 entries, one crash + restart; repaired leader branch
+\* exhaustive (quick): log of up to 3 entries, no crash, one spurious heartbeat timeout / deposed healthy leader
+\* (stale leader pointers, proxy chains to a deposed leader)
 SPECIFICATION Spec
 CONSTANTS
     Nodes = {1, 2, 3}
-    MaxLog = 2
-    MaxCrash = 1
-    MaxSpurious = 0
+    MaxLog = 3
+    MaxCrash = 0
+    MaxSpurious = 1
     MaxHops = 2
     FixedLeaderLag = TRUE
 INVARIANTS TypeOK NeverGoneWhileAlive GoneOnlyIfDeleted NotYetSeenIsRetryable ServedOnlyByKnowing LookupSound EffectOnlyByLeader
